@@ -49,6 +49,7 @@ Probe(p) == <<SheetsL[p], 5, 5>>
 WithProbe(cells, p, ast) == [k \in DOMAIN cells \cup {Probe(p)} |-> IF k = Probe(p) THEN F(ast) ELSE cells[k]]
 
 Restrict(cells, absent) == [k \in DOMAIN cells \ absent |-> cells[k]]
+A6 == <<"S1", 1, 6>>  A10 == <<"S1", 1, 10>>  F3 == <<"S1", 6, 3>>  D2 == <<"S1", 4, 2>>  D9 == <<"S1", 4, 9>>
 SubBlock == {<<"S1", 1, 1>>, <<"S1", 2, 1>>, <<"S1", 1, 2>>, <<"S1", 2, 2>>}
 
 StripOn(sh, n, horiz, mid) == \* weights 1 and 2 at the two ends (and 4 in the middle) of a strip of length n on sheet sh
@@ -93,6 +94,15 @@ InitCase ==
      /\ \E absent \in SUBSET SubBlock, k \in SubBlock, p \in {1, 2} :
           /\ k \in absent
           /\ case = Mk("blank-ref", WithProbe(Restrict(DenseCells, absent), p, Ref(IF p = 1 THEN "" ELSE "S1", k[2], k[3], FALSE, FALSE)), NoNames, Probe(p))
+  \/ /\ "range" \in Families        \* a cell that comes into being AFTER the workbook was compiled (set_cell_value), inside a range that
+     /\ \E f \in {"SUM", "COUNTA"}, v \in 1..6, p \in {1, 2} :     \* reaches beyond the cells stored at that time
+          LET sh == IF p = 1 THEN "" ELSE "S1"
+              lr == CASE v = 1 -> <<A6, Rng(sh, 1, 1, 1, 10)>>  [] v = 2 -> <<A10, Rng(sh, 1, 1, 1, 10)>>
+                      [] v = 3 -> <<F3, RngV(sh, 1, 2, 6, 3, 4)>> [] v = 4 -> <<D2, RngV(sh, 1, 2, 6, 3, 4)>>
+                      [] v = 5 -> <<D9, Rng(sh, 1, 1, 4, 10)>>    [] v = 6 -> <<A10, Rng(sh, 1, 4, 1, 10)>>
+              cells == [k \in DOMAIN DenseCells \cup {lr[1]} |-> IF k = lr[1] THEN K(Whole(100000)) ELSE DenseCells[k]]
+          IN case = [kind |-> "late", cells |-> WithProbe(cells, p, CallN(f, <<lr[2]>>)), names |-> NoNames, probe |-> Probe(p),
+                     pname |-> "", pre |-> <<>>, late |-> lr[1]]
   \/ /\ "ref" \in Families          \* the SAME cell (stored, or never stored) mentioned twice in one formula, in two spellings
      /\ \E k \in SubBlock, gone \in BOOLEAN, p \in {1, 2}, v1 \in {1, 4}, v2 \in {1, 4}, form \in 1..3 :
           LET cells == IF gone THEN Restrict(DenseCells, {k}) ELSE DenseCells
